@@ -441,6 +441,65 @@ def unfold_hneed(E, D, k, h):
                                         hneed(D, k, h) == ref_needed(E, chain, kt, h))))
 
 
+hrefs = z3.Function("hrefs", HNode, SeqI, IntS)     # how often the hashed node h is referenced below D (tree unfolding)
+
+
+def ref_count_of(E, r, h):
+    """contribution of the reference r to the count of h: the reference itself, plus what the node it denotes holds"""
+    hashed = z3.And(HRef.is_RHash(r), HRef.rhash(r) != blank_node_hash(E))
+    return z3.If(hashed, z3.If(HRef.rhash(r) == h, 1, 0) + hrefs(hnode_of_hash(HRef.rhash(r)), h),
+                 z3.If(HRef.is_REmb(r), hrefs(HRef.remb(r), h), 0))
+
+
+def hrefs_body(E, D, h):
+    br = 0
+    for i in range(16):
+        br = br + ref_count_of(E, child(D, i), h)
+    return z3.If(HNode.is_HExt(D), ref_count_of(E, HNode.echild(D), h), z3.If(HNode.is_HBranch(D), br, 0))
+
+
+def unfold_hrefs(E, D, h, depth=3):
+    """definitional step of hrefs at D (and, for a node built on this path, at the nodes its references visibly
+    denote, `depth` levels down); for a branch written at a symbolic slot the consequence of the definition (lemma
+    refs_store: only that slot's contribution changes) is added as well"""
+    D = z3.simplify(D)
+    if depth > 0 and is_constructor(D):
+        name = D.decl().name()
+        kids = [D.arg(1)] if name == "HExt" else ([D.arg(i) for i in range(16)] if name == "HBranch" else [])
+        for kr in kids:
+            for leaf in ref_leaves(kr):
+                X = resolve_ref(leaf)
+                if X is not None:
+                    # the hash of a node built here denotes that node (A-HASH + rlp round trip)
+                    if leaf.decl().name() == "RHash":
+                        E.assume(mk_bool(hnode_of_hash(leaf.arg(0)) == X))
+                    unfold_hrefs(E, X, h, depth - 1)
+    done = E.ghost.setdefault("hrefs_unfolded", [])
+    if any(d.eq(D) and hh.eq(h) for (d, hh) in done):
+        return
+    done.append((D, h))
+    E.assume(mk_bool(hrefs(D, h) == hrefs_body(E, D, h)))
+    E.assume(mk_bool(hrefs(D, h) >= 0))
+    if depth > 0 and not is_constructor(D):
+        # an opaque node: the children that were followed on this path (materialised by get_node) are unfolded too
+        for X in list(E.ghost.get("followed", [])):
+            if not X.eq(D) and _mentions(X, D):
+                unfold_hrefs(E, X, h, depth - 1)
+    for (Dn, Dp, js, rv) in E.ghost.get("sym_stores", []):
+        if Dn.eq(D):
+            old = child(Dp, 15)
+            for i in reversed(range(15)):
+                old = z3.If(js == i, child(Dp, i), old)
+            E.assume(mk_bool(hrefs(Dn, h) == hrefs(Dp, h) - ref_count_of(E, old, h) + ref_count_of(E, rv, h)))
+            unfold_hrefs(E, Dp, h, depth)
+            for leaf in ref_leaves(rv):
+                X = resolve_ref(leaf)
+                if X is not None and depth > 0:
+                    if leaf.decl().name() == "RHash":
+                        E.assume(mk_bool(hnode_of_hash(leaf.arg(0)) == X))
+                    unfold_hrefs(E, X, h, depth - 1)
+
+
 class HexDbInvariant:
     """store invariant: every entry is rlp(node) of a well-formed node under its keccak"""
 
